@@ -124,6 +124,16 @@ std::vector<Sector> decode_mfm_track(const BitStream& bits, bool verbose)
   Sector sec;
   int sec_size;
   enum MfmDecodeState state = MfmDecodeState::LookingForSectorHeader;
+  // The position just after the most recently accepted sector header.
+  // The data record belonging to it follows after gap 2 (nominally
+  // 22 bytes of 0x4E, 12 sync bytes and the three A1 bytes); a floppy
+  // controller gives up looking for it after about 43 bytes.  Without
+  // a limit, damage to a sector's data sync and to the following
+  // sector's header would make us return the following sector's data
+  // under this sector's address.
+  size_t header_end = 0;
+  constexpr size_t bits_per_mfm_byte = 16;
+  constexpr size_t max_header_to_record_bits = 96 * bits_per_mfm_byte;
   while (bits_avail)
     {
       // Look for the bytes leading up to an address mark:
@@ -171,6 +181,7 @@ std::vector<Sector> decode_mfm_track(const BitStream& bits, bool verbose)
 		    if (decode_sector_address_and_size(header.data(), &sec.address, &sec_size,
 						       error))
 		      {
+			header_end = thisbit;
 			state = MfmDecodeState::LookingForRecord;
 			continue;
 		      }
@@ -185,6 +196,21 @@ std::vector<Sector> decode_mfm_track(const BitStream& bits, bool verbose)
 	  continue;
 
 	case MfmDecodeState::LookingForRecord:
+	  if (thisbit - header_end > max_header_to_record_bits)
+	    {
+	      // This sync sequence is too far from the sector header to
+	      // introduce its data record.  Forget the header and
+	      // look at this sync sequence again, as a possible
+	      // sector header.
+	      if (verbose)
+		{
+		  std::cerr << "No data record found soon enough after the header for "
+			    << sec.address << "; dropping that sector\n";
+		}
+	      thisbit = header_end;
+	      state = MfmDecodeState::LookingForSectorHeader;
+	      continue;
+	    }
 	  {
 	    // The data over which the CRC is computed is the three A1 bytes plus:
 	    // byte 0: marker byte (data_address_mark FB or deleted_data_address_mark F8)
